@@ -205,6 +205,65 @@ fn check(c: &Kex) -> CaseResult {
     pass(exact, if tampered { format!("tampered/{}{}{}{}", c.t_ra.is_some() as u8, c.t_rb.is_some() as u8, c.t_sb.is_some() as u8, c.t_sa.is_some() as u8) } else { "honest".to_string() })
 }
 
+/// The shared point is the point at infinity. For the responder: d_A := -x1bar * r_A mod n makes P_A + [x1bar]R_A = O, so V = O whatever B's key
+/// and r_B are; for the initiator: d_B := -x2bar * r_B makes U = O. GB/T 32918.3 (B5 / A6): the party reports failure.
+#[derive(Serialize, Deserialize, Hash, Debug, Clone)]
+pub struct InfShared {
+    pub responder: bool,
+    pub seed: u64,
+    pub klen: usize,
+}
+
+fn check_infinity_shared(c: &InfShared) -> CaseResult {
+    let n = &r2::params().n;
+    let sc = |t: u64, m: &BigUint| from_be(&expand_bytes(c.seed ^ t << 8, 32)) % m + 1u32;
+    let (ra, rb) = (sc(3, &(n - 1u32)), sc(4, &(n - 1u32)));
+    let xbar_of = |r: &BigUint| r2::x_bar(&from_be(&r2::xy(&r2::g_mul(r)).unwrap().0));
+    // the crafted key belongs to the party whose ephemeral point the *other* side combines with its public key
+    let (da, db) = if c.responder { ((n - (xbar_of(&ra) * &ra) % n) % n, sc(2, &(n - 2u32))) } else { (sc(1, &(n - 2u32)), (n - (xbar_of(&rb) * &rb) % n) % n) };
+    if da.bits() == 0 || db.bits() == 0 || da > n - 2u32 || db > n - 2u32 {
+        return pass(false, "crafted-key-out-of-range");
+    }
+    let (pa, pb) = (r2::g_mul(&da), r2::g_mul(&db));
+    let (ida_b, ida) = id_bytes(1);
+    let (idb_b, idb) = id_bytes(3);
+    let (z_a, z_b) = (r2::za(ida_b, &pa), r2::za(idb_b, &pb));
+    let mk = |what: &str, e: String| Fail { key: format!("entry={} input=valid-key outcome=rejected", what), detail: e };
+    let (ska, skb) = (lib_sk(&da).map_err(|e| mk("Sm2PrivateKey::new", e))?, lib_sk(&db).map_err(|e| mk("Sm2PrivateKey::new", e))?);
+    let (pka, pkb) = (lib_pk(&pa).map_err(|e| mk("Sm2PublicKey::new", e))?, lib_pk(&pb).map_err(|e| mk("Sm2PublicKey::new", e))?);
+    let mut alice = match outcome(|| Exchange::new(c.klen, ida, &pka, &ska, idb, &pkb)) {
+        Outcome::Ok(e) => e,
+        o => return fail(format!("entry=Exchange::new input=valid outcome={}", o.class()), o.describe()),
+    };
+    let mut bob = match outcome(|| Exchange::new(c.klen, idb, &pkb, &skb, ida, &pka)) {
+        Outcome::Ok(e) => e,
+        o => return fail(format!("entry=Exchange::new input=valid outcome={}", o.class()), o.describe()),
+    };
+    let (r, _) = with_sm2_candidates(vec![to32(&ra)], || alice.exchange_1());
+    let ra_lib = match r { Ok(Ok(p)) => p, o => return fail("entry=Exchange::exchange_1 input=valid outcome=failure", format!("{:?}", o.map(|x| x.map(|p| show_lib(&p))))) };
+    let (r, _) = with_sm2_candidates(vec![to32(&rb)], || bob.exchange_2(&ra_lib));
+    if c.responder {
+        // the reference agrees that B's shared point is infinity
+        if r2::key_agreement(false, &db, &rb, &pa, &r2::g_mul(&ra), &z_a, &z_b, c.klen).is_some() {
+            return pass(false, "crafting-failed");
+        }
+        return match r {
+            Err(p) => fail("entry=Exchange::exchange_2 input=shared-point-at-infinity outcome=panic", p),
+            Ok(Err(_)) => pass(true, "responder-reports-failure"),
+            Ok(Ok((_, sb))) => fail("entry=Exchange::exchange_2 input=shared-point-at-infinity outcome=accepted", format!("dA = -x1bar*rA: V = O, yet exchange_2 returned S_B = {} (a key derived from the coordinates of O is known to everybody)", hex::encode(sb))),
+        };
+    }
+    let (rb_lib, sb) = match r { Ok(Ok(v)) => v, o => return fail("entry=Exchange::exchange_2 input=valid outcome=failure", format!("{:?}", o.is_ok())) };
+    if r2::key_agreement(true, &da, &ra, &pb, &r2::g_mul(&rb), &z_a, &z_b, c.klen).is_some() {
+        return pass(false, "crafting-failed");
+    }
+    match outcome(|| alice.exchange_3(&rb_lib, sb)) {
+        Outcome::Panic(p) => fail("entry=Exchange::exchange_3 input=shared-point-at-infinity outcome=panic", p),
+        Outcome::Err(_) => pass(true, "initiator-reports-failure"),
+        Outcome::Ok(sa) => fail("entry=Exchange::exchange_3 input=shared-point-at-infinity outcome=accepted", format!("dB = -x2bar*rB: U = O, yet exchange_3 returned S_A = {}", hex::encode(sa))),
+    }
+}
+
 fn pt_tamper() -> impl Strategy<Value = Option<PtTamper>> {
     prop_oneof![
         4 => Just(None),
@@ -297,6 +356,15 @@ pub fn run(ctx: &Ctx) {
             Kex { da: sc(1, &(n - 2u32)), db: sc(2, &(n - 2u32)), id_a: i as usize, id_b: 2 * i as usize, klen: 16 + 7 * i as usize, ra: sc(3, &(n - 1u32)), rb: sc(4, &(n - 1u32)), t_ra: None, t_rb: None, t_sb: if i == 2 { Some(STamper::FlipBit(9)) } else { None }, t_sa: None }
         }).collect()
     }, check);
+
+    ctx.listed("shared_point_at_infinity", "the initiator's private key crafted from its own ephemeral scalar (d_A = -x1bar * r_A mod n) so that P_A + [x1bar]R_A = O and the responder's shared point V is the point at infinity: the responder must report failure (GB/T 32918.3 B5), not derive a key from the coordinates of O", || {
+        let mut v = Vec::new();
+        // only the responder's check is observable: d_B = -x2bar * r_B would make B's own t_B zero, so B fails before A ever gets an S_B
+        for i in 0..8u64 {
+            v.push(InfShared { responder: true, seed: 0x1f5 + i, klen: 16 + i as usize });
+        }
+        v
+    }, check_infinity_shared);
 
     ctx.listed("edge_point_ephemerals", "R_A (resp. R_B) replaced in transit by a boundary point of the curve (x next to 0, n, p, 2^256-p, powers of two, Montgomery limb patterns, y with a leading zero byte), affine and Z = 2: B must accept the valid point and derive exactly the S_B / K_B of GB/T 32918.3 from it; A must report failure", || {
         let n = &r2::params().n;
